@@ -3,6 +3,7 @@
 
 mod arms;
 mod batch;
+mod contain;
 mod ctx;
 mod engine;
 mod entropy;
@@ -32,7 +33,7 @@ fn main() -> ExitCode {
     let opt = |name: &str| -> Option<String> { args.iter().position(|a| a == name).and_then(|i| args.get(i + 1).cloned()) };
     let flag = |name: &str| args.iter().any(|a| a == name);
     match cmd.as_str() {
-        "run" => {
+        "run" | "probe" => {
             let Some(property) = opt("--property") else { return usage() };
             let cfg = batch::RunCfg {
                 property,
@@ -46,12 +47,36 @@ fn main() -> ExitCode {
                 codec: opt("--codec"),
                 bits: opt("--bits").and_then(|s| s.parse().ok()),
                 profile: opt("--profile").unwrap_or_else(|| "checked".into()),
+                hang_file: opt("--hang-file"),
+                only_stage: opt("--only-stage").and_then(|s| s.parse().ok()),
+                stop: match (opt("--stop-stage").and_then(|s| s.parse().ok()), opt("--stop-index").and_then(|s| s.parse().ok())) {
+                    (Some(a), Some(i)) => Some((a, i)),
+                    _ => None,
+                },
             };
-            ExitCode::from(batch::run(&cfg))
+            if cmd == "probe" {
+                let arm_id = opt("--stage").and_then(|s| s.parse().ok()).unwrap_or(0);
+                let from = opt("--from").and_then(|s| s.parse().ok()).unwrap_or(0);
+                let to = opt("--to").and_then(|s| s.parse().ok()).unwrap_or(0);
+                let points = match (opt("--point-from").and_then(|s| s.parse().ok()), opt("--point-to").and_then(|s| s.parse().ok())) {
+                    (Some(a), Some(b)) => Some((a, b)),
+                    _ => None,
+                };
+                return ExitCode::from(batch::probe(&cfg, arm_id, from, to, points));
+            }
+            if flag("--inproc") {
+                ExitCode::from(batch::run(&cfg))
+            } else {
+                ExitCode::from(contain::supervise_run(&cfg))
+            }
         }
         "replay" => {
             let Some(path) = args.get(1) else { return usage() };
-            ExitCode::from(batch::replay(path, flag("--trace")))
+            if flag("--inproc") {
+                ExitCode::from(batch::replay(path, flag("--trace")))
+            } else {
+                ExitCode::from(contain::supervise_replay(path, flag("--trace")))
+            }
         }
         "trace" => {
             let arm = opt("--arm").unwrap_or_else(|| "pipeline".into());
